@@ -92,6 +92,60 @@ try:
             verdict(True, "revert destroyed uncommitted edits without a backup: the preceding update only renamed the file but recorded its text "
                           "as written by the merge", input=dict(update="pull of a %s f -> %s onto a tree with edits in f" % (how, new)),
                     observed="merge hashes after the update: %s; files after revert: %s" % (sorted(claimed), sorted(all_content(ld))))
+    # 6. merge-like operations onto a tree with uncommitted edits: whatever the other side did to the file (nothing, edited it elsewhere,
+    #    edited the same line, renamed it, deleted it), the user's uncommitted text is still somewhere in the tree afterwards
+    from breezy import switch as _switch
+    USER = b"line1\nUSER EDIT NEVER COMMITTED\nline3\n"
+    for other_does in ("nothing to f", "edits another line", "edits the same line", "renames f", "deletes f", "replaces f by a directory"):
+        for op in ("merge", "pull", "update", "switch"):
+            tried += 1
+            nm = "ml_%d" % tried
+            ud = os.path.join(base, nm + "_up"); os.mkdir(ud)
+            cdu = controldir.format_registry.make_controldir("2a").initialize(ud); cdu.create_repository(); cdu.create_branch()
+            up = cdu.create_workingtree()
+            open(os.path.join(ud, "f"), "w").write("line1\nline2\nline3\n"); open(os.path.join(ud, "g"), "w").write("g\n")
+            up.add(["f", "g"]); up.commit("1", committer="t <t@e.x>")
+            ld = os.path.join(base, nm + "_local")
+            if op in ("update", "switch"):
+                local = up.branch.create_checkout(ld, lightweight=(op == "switch"))
+            else:
+                local = up.controldir.sprout(ld).open_workingtree()
+            target_branch = up.branch
+            if op == "switch":
+                od = os.path.join(base, nm + "_other")
+                target_wt = up.controldir.sprout(od).open_workingtree()
+                work, wd, target_branch = target_wt, od, target_wt.branch
+            else:
+                work, wd = up, ud
+            if other_does == "edits another line":
+                open(os.path.join(wd, "f"), "w").write("line1\nline2\nline3\nOTHER\n")
+            elif other_does == "edits the same line":
+                open(os.path.join(wd, "f"), "w").write("line1\nOTHER\nline3\n")
+            elif other_does == "renames f":
+                work.rename_one("f", "f2")
+            elif other_does == "deletes f":
+                work.remove(["f"], keep_files=False)
+            elif other_does == "replaces f by a directory":
+                work.remove(["f"], keep_files=False); os.mkdir(os.path.join(wd, "f")); work.add(["f"])
+            else:
+                open(os.path.join(wd, "g"), "w").write("g2\n")
+            work.commit("2", committer="t <t@e.x>")
+            open(os.path.join(ld, "f"), "wb").write(USER)
+            try:
+                if op == "merge":
+                    local.merge_from_branch(up.branch, force=True) if False else local.merge_from_branch(up.branch)
+                elif op == "pull":
+                    local.pull(up.branch)
+                elif op == "update":
+                    local.update()
+                else:
+                    _switch.switch(local.controldir, target_branch, force=False)
+            except Exception as e:  # noqa  (refusing is fine: then nothing may be lost either)
+                pass
+            found = any(b"USER EDIT NEVER COMMITTED" in v for v in all_content(ld).values())
+            if not found:
+                verdict(True, "uncommitted edits were lost by a merge-like operation", input=dict(operation=op, other_side=other_does),
+                        observed=str(sorted(all_content(ld))))
     verdict(False, "no failing scenario among %d" % tried)
 finally:
     shutil.rmtree(base, ignore_errors=True)
